@@ -352,6 +352,7 @@ type valueBuilder struct {
 	self    *types.Package
 	strs    map[string]bool
 	fail    string
+	truncated bool
 }
 
 func (vb *valueBuilder) qual(p *types.Package) string {
@@ -475,9 +476,11 @@ func (vb *valueBuilder) build(term string, t types.Type, depth int) string {
 		lv, _ := vb.m.eval("(s-len " + term + ")")
 		ln, lok := parseSMTInt(lv)
 		off := int64(0)
-		if !lok || ln > 12 {
-			vb.fail = fmt.Sprintf("slice of length %d in model", ln)
-			return "nil"
+		if !lok || ln > 8 {
+			// long slices are truncated: the replay on the real code decides whether the
+			// (shortened) input still shows the failure
+			ln = 8
+			vb.truncated = true
 		}
 		h := vc.arrHeap(u.Elem())
 		ht, haveHeap := vb.initHeapTerm(h.name)
@@ -624,12 +627,6 @@ func replayObligation(e *Engine, o *Obligation, outDir, work string) (string, bo
 	script := o.vc.scriptOpt(o.Upto, o.Path, o.Goal, true, relaxed)
 	// prefer small models: bound the length of every slice-sorted constant and of the inputs
 	var small strings.Builder
-	for _, d := range o.vc.decls {
-		if strings.HasPrefix(d, "(declare-const ") && strings.HasSuffix(d, " Slice)") {
-			name := strings.Fields(d)[1]
-			fmt.Fprintf(&small, "(assert (<= (s-len %s) 3))\n", name)
-		}
-	}
 	for i, p := range fn.Params {
 		sizeHints(x, &small, x.rootParams[i].S, p.Type(), 0, map[string]bool{})
 	}
@@ -711,7 +708,7 @@ func replayObligation(e *Engine, o *Obligation, outDir, work string) (string, bo
 	for i, a := range argExprs {
 		n := fmt.Sprintf("vs_a%d", i)
 		names = append(names, n)
-		fmt.Fprintf(&src, "\t%s := %s\n", n, a)
+		fmt.Fprintf(&src, "\tvar %s %s = %s\n\t_ = %s\n", n, vb.typeStr(fn.Params[i].Type()), a, n)
 	}
 	callee := fn.Name()
 	argList := names
